@@ -472,6 +472,35 @@ def rule_axis_metadata(ctx):
             ctx.violated('R5', fi, 'return ' + T.show(bad.value)[:120], 'the sub-axis must be created with the metadata of the axis (**self.attrs)', node=bad.node)
         elif n:
             ctx.holds('R5', q.replace('dimarray.core.axes.', '') + ': Axis(..., **self.attrs)')
+    # take(..., broadcast=True): NumPy-style broadcast of array and integer indices. When a single dimension is indexed by an array (the integers only
+    # drop theirs) the result axis is that axis, indexed - it must come from the Axis object (obj.axes[i][ix] keeps **attrs), not be rebuilt from bare labels
+    fb = ctx.fn('dimarray.core.indexing.getaxes_broadcast')
+    OBJ = P_('obj')
+    evb = run(ctx, fb, mode='fork', max_paths=20000)
+    single = 0
+    badb = None
+    for p in ret_paths(evb):
+        one = [pol for a, pol in p.guards if a[0] == 'cmp' and a[1] == '==' and a[3] == const(1) and T.call_name(a[2]) == 'len']
+        if one != [True]:
+            continue
+        for e in p.calls('insert'):
+            if len(e.a[2]) != 2:
+                continue
+            x = e.a[2][1]
+            single += 1
+            from_axis = (x[0] == 'sub' and x[1][0] == 'sub' and x[1][1] == ('attr', OBJ, 'axes')) or \
+                (x[0] == 'call' and T.call_name(x) in ('take', '__getitem__') and T.contains(x, ('attr', OBJ, 'axes')))
+            with_attrs = x[0] == 'call' and T.call_name(x) == 'Axis' and dict(x[3]).get('**') is not None and 'attrs' in T.show(dict(x[3]).get('**'))
+            if not (from_axis or with_attrs) and badb is None:
+                badb = (p, x)
+    if badb is not None:
+        ctx.violated('R5', fb, 'broadcast axis = ' + T.show(badb[1])[:100], 'with broadcast=True and one array index next to integer indices, the indexed axis is rebuilt as Axis(labels, name): '
+                     'its metadata is lost (a.take(([10, 20], \'a\'), broadcast=True).axes[\'x\'].attrs == {}) although the same selection without broadcast keeps it',
+                     node=badb[0].node)
+    elif single:
+        ctx.holds('R5', 'getaxes_broadcast: a single array-indexed axis is taken from the Axis object (metadata kept)')
+    else:
+        ctx.undecide('R5', 'getaxes_broadcast: the single-array branch (len(array_ix_pos) == 1) was not found')
     for q in ('dimarray.core.axes.Axis.cast', 'dimarray.core.axes.Axis.union', 'dimarray.core.axes.Axis.intersection'):
         fi = ctx.fn(q)
         ev = run(ctx, fi, mode='join')
